@@ -45,7 +45,7 @@ EXHAUSTIVE = {"quick": False, "thorough": False}
 FINDING_CLASSES = {1: "nested-null-restringified"}
 # "judge": model of the code as it is (finding class 1 open). After fixes/C14-nested-null-restringified.patch has been
 # applied to /repo set this to "judge_fixed" (model with the NestedArg value handed down unchanged, no finding class).
-JUDGE = os.environ.get("C14_JUDGE", "judge")
+JUDGE = os.environ.get("C14_JUDGE", "judge_fixed")  # repair landed: /repo 389f511
 META = {
     "level_text": "Proved in Coq for ALL well-formed class families, declared types, defaults and argv sequences of the model "
                   "(coq/Properties/C14.v): C14_accepted_is_subclass_and_valid — every value parse accepts names a class that "
